@@ -1,7 +1,7 @@
 (* run_case: the single entry point of the extracted model.  One case term in, one observation
    term out; the same function is evaluated with vm_compute for the extraction cross-check. *)
 From Coq Require Import String.
-From AvroV Require Import Base Varint Schema Bytes Names Codec Conforms Layout Validate Rabin SingleObject Container Sink Settings Sexp.
+From AvroV Require Import Base Varint Schema Bytes Names Codec Conforms Layout Validate Rabin SingleObject Resolve Container Sink Settings Sexp.
 Local Open Scope string_scope.
 
 Definition run_fuel : nat := 300.
@@ -223,6 +223,27 @@ Definition run_case (x : sexp) : sexp :=
                                      | Accepted => L [Sym "accepted"]
                                      | Rejected _ => L [Sym "rejected"] end) outs)
       | None => obs_bad
+      end
+    else if op =? "vw" then
+      (* (vw CFG SCHEMA VALUE) -> (ok valid RESOLVE DATUM) : validation (with the real union search),
+         resolution, and the validating datum write *)
+      match args with
+      | [cx; sx; vx] =>
+        match cfg_of cx, schema_of conv_fuel sx, value_of conv_fuel vx with
+        | Some c, Some s, Some v =>
+          match resolved s with
+          | Ok nmz =>
+            let find := find_impl c run_fuel in
+            L [Sym "ok";
+               obs_of_res (fun b : bool => [Num (if b then 1 else 0)]) (validate run_fuel find nmz None s v);
+               obs_of_res (fun x => [sexp_of_value x]) (resolve run_fuel c nmz None s v);
+               obs_of_res (fun b => [Hex b]) (write_value run_fuel find true nmz s v);
+               obs_of_res (fun b => [Hex b]) (so_datum run_fuel find nmz s v)]
+          | _ => obs_err
+          end
+        | _, _, _ => obs_bad
+        end
+      | _ => obs_bad
       end
     else if op =? "layout" then
       (* (layout k neg01 CFG SCHEMA VALUE) -> (ok #bytes conforms01 names-ok01) *)
